@@ -58,7 +58,21 @@ struct Tally {
     verdicts: Arc<Mutex<Vec<(Byte32, Result<bool, String>)>>>,
 }
 
+/// deliveries made like the sync layer makes them (see `mark_received`): switched per scenario
+static VIA_PEER: std::sync::atomic::AtomicBool = std::sync::atomic::AtomicBool::new(false);
+
+/// what the sync layer does before it hands a block of a peer to the chain service (`SyncShared::accept_remote_block`,
+/// not reachable from outside the crate): the block is marked BLOCK_RECEIVED unless it has a status already
+fn mark_received(n: &Node, b: &BlockView) {
+    if let dashmap::mapref::entry::Entry::Vacant(e) = n.shared.block_status_map().entry(b.hash()) {
+        e.insert(BlockStatus::BLOCK_RECEIVED);
+    }
+}
+
 fn submit(n: &Node, t: &mut Tally, b: &BlockView, switch: Option<Switch>) {
+    if VIA_PEER.load(Ordering::SeqCst) {
+        mark_received(n, b);
+    }
     let answered = Arc::clone(&t.answered);
     let verdicts = Arc::clone(&t.verdicts);
     let mut guard = Guard { called: false, dropped: Arc::clone(&t.dropped) };
@@ -396,6 +410,8 @@ fn random(args: &[String]) {
     let genesis = c.genesis_block().clone();
     let spares: Vec<_> = (0..32).map(|i| spend(&c, &[genesis_cell(&c, i)], 50_000 * 100_000_000, 1, 1000, 0)).collect();
     for sc in 0..count {
+        // every other scenario is delivered the way peers' blocks arrive (status BLOCK_RECEIVED set first)
+        VIA_PEER.store(sc % 2 == 1, Ordering::SeqCst);
         let mut par: Vec<usize> = vec![];
         let mut works: Vec<u64> = vec![];
         let mut ok: Vec<&str> = vec![];
